@@ -17,6 +17,7 @@
 #include "torrent/utils/log.h"
 #include "utils/instrumentation.h"
 #include "utils/thread_internal.h"
+#include "utils/verif_hooks.h"
 
 namespace torrent::system {
 
@@ -85,6 +86,8 @@ void
 Thread::callback(bool is_interrupt, std::function<void ()>&& fn) {
   bool should_interrupt{};
 
+  LT_VERIF_SCHED("cbn_lock");
+
   {
     auto guard = std::scoped_lock(m_callbacks_lock);
 
@@ -111,6 +114,9 @@ Thread::callback(bool is_interrupt, std::function<void ()>&& fn) {
   }
 
   if (should_interrupt)
+    LT_VERIF_SCHED("cb_interrupt");
+
+  if (should_interrupt)
     m_poll->do_interrupt();
 }
 
@@ -119,12 +125,15 @@ Thread::callback(bool is_interrupt, system::callback_id& id, std::function<void 
   assert(id != nullptr);
 
   // Ensure adding callbacks for the id are completed before cancel-wait can proceed.
+  LT_VERIF_SCHED("cb_fetch_add");
   auto previous_id = id->fetch_add(1, std::memory_order_relaxed);
 
   if ((previous_id & 0x7) == 0x7)
     throw internal_error("Thread::callback() lower id overflow.");
 
   bool should_interrupt{};
+
+  LT_VERIF_SCHED("cb_lock");
 
   {
     auto guard = std::scoped_lock(m_callbacks_lock);
@@ -151,8 +160,12 @@ Thread::callback(bool is_interrupt, system::callback_id& id, std::function<void 
     }
   }
 
+  LT_VERIF_SCHED("cb_fetch_sub");
   id->fetch_sub(1, std::memory_order_release);
   id->notify_all();
+
+  if (should_interrupt)
+    LT_VERIF_SCHED("cb_interrupt");
 
   if (should_interrupt)
     m_poll->do_interrupt();
@@ -162,6 +175,7 @@ void
 Thread::cancel_callback(system::callback_id& id) {
   assert(id != nullptr);
 
+  LT_VERIF_SCHED("cc_fetch_add");
   id->fetch_add(0x10, std::memory_order_release);
 }
 
@@ -171,10 +185,12 @@ Thread::cancel_callback_and_wait(system::callback_id& id) {
   assert(id != nullptr);
 
   while (true) {
+    LT_VERIF_SCHED("cw_load");
     auto current_id = id->load(std::memory_order_acquire);
     auto counter    = (current_id & 0x7);
 
     if (counter >= 2) {
+      LT_VERIF_SCHED_WAIT("cw_wait", id.get(), current_id);
       id->wait(current_id, std::memory_order_acquire);
       continue;
     }
@@ -183,11 +199,13 @@ Thread::cancel_callback_and_wait(system::callback_id& id) {
       // Check if we ourselves are the only ones running the callback for the id, if so then skip
       // the wait.
       if (m_self == nullptr || m_self->m_callback_processing_id != id) {
+        LT_VERIF_SCHED_WAIT("cw_wait", id.get(), current_id);
         id->wait(current_id, std::memory_order_acquire);
         continue;
       }
     }
 
+    LT_VERIF_SCHED("cw_cas");
     if (id->compare_exchange_weak(current_id, current_id + 0x10, std::memory_order_acquire))
       break;
   }
@@ -213,15 +231,19 @@ Thread::cancel_callback_and_wait(callback_id& id, Thread* other_thread) {
   }
 
   auto wait_for_deadlock = [&id]() {
+    LT_VERIF_SCHED("dl_wload");
     auto current_id = id->load(std::memory_order_acquire);
 
     while (current_id & 0x8) {
+      LT_VERIF_SCHED_WAIT("dl_wwait", id.get(), current_id);
       id->wait(current_id, std::memory_order_acquire);
+      LT_VERIF_SCHED("dl_wload");
       current_id = id->load(std::memory_order_acquire);
     }
   };
 
   while (true) {
+    LT_VERIF_SCHED("dl_load");
     auto pre_deadlock_id = id->load(std::memory_order_acquire);
 
     // The other thread is also trying to wait for cancel, so just wait.
@@ -233,12 +255,15 @@ Thread::cancel_callback_and_wait(callback_id& id, Thread* other_thread) {
       return;
     }
 
+    LT_VERIF_SCHED("dl_cas");
     if (id->compare_exchange_weak(pre_deadlock_id, pre_deadlock_id | 0x8, std::memory_order_acquire))
       break;
   }
 
   // We are the first thread canceling, so cancel and notify.
+  LT_VERIF_SCHED("dl_fetch_add");
   id->fetch_add(0x10, std::memory_order_release);
+  LT_VERIF_SCHED("dl_fetch_and");
   id->fetch_and(~0x8, std::memory_order_release);
   id->notify_all();
 }
@@ -364,11 +389,13 @@ Thread::process_events_without_cached_time() {
 
 void
 Thread::process_callbacks(bool only_interrupt) {
+  LT_VERIF_SCHED("pc_store");
   m_has_interrupt_callbacks.store(false, std::memory_order_release);
 
   while (true) {
     std::vector<callback_type> callbacks;
 
+    LT_VERIF_SCHED("pc_lock");
     {
       auto guard = std::scoped_lock(m_callbacks_lock);
 
@@ -397,12 +424,14 @@ Thread::process_callbacks(bool only_interrupt) {
         continue;
       }
 
+      LT_VERIF_SCHED("pc_fetch_add");
       auto previous_id = callback.id->fetch_add(1, std::memory_order_relaxed);
 
       if ((previous_id & 0x7) == 0x7)
         throw internal_error("Thread::process_callbacks() lower id overflow.");
 
       if ((previous_id & ~0x7) != callback.expected_id) {
+        LT_VERIF_SCHED("pc_skip_sub");
         callback.id->fetch_sub(1, std::memory_order_release);
         callback.id->notify_all();
         continue;
@@ -412,6 +441,7 @@ Thread::process_callbacks(bool only_interrupt) {
       callback.fn();
       m_callback_processing_id = nullptr;
 
+      LT_VERIF_SCHED("pc_fetch_sub");
       callback.id->fetch_sub(1, std::memory_order_release);
       callback.id->notify_all();
     }
